@@ -12,12 +12,14 @@ use std::time::Duration;
 use netconf::message::rpc::operation::{
     edit_config::{DefaultOperation, ErrorOption, TestOption},
     junos::{
-        load_configuration::{Config, Json, Merge, Override, Replace, Rescue, Set, Text, Update, Xml},
-        CloseConfiguration, CommitConfiguration, LoadConfiguration, LockConfiguration, OpenConfiguration,
-        UnlockConfiguration,
+        load_configuration::{
+            Config, Json, Merge, Override, Replace, Rescue, Set, Text, Update, Xml,
+        },
+        CloseConfiguration, CommitConfiguration, LoadConfiguration, LockConfiguration,
+        OpenConfiguration, UnlockConfiguration,
     },
-    Builder, CancelCommit, Commit, CopyConfig, Datastore, DeleteConfig, DiscardChanges, EditConfig, Filter, Get,
-    GetConfig, KillSession, Lock, Opaque, Token, Unlock, Validate,
+    Builder, CancelCommit, Commit, CopyConfig, Datastore, DeleteConfig, DiscardChanges, EditConfig,
+    Filter, Get, GetConfig, KillSession, Lock, Opaque, Token, Unlock, Validate,
 };
 
 use crate::{
@@ -78,13 +80,19 @@ fn filter(s: &str) -> Result<Option<Filter>, String> {
 async fn run_op(s: &mut Session, t: &[&str]) -> Result<(), String> {
     macro_rules! go {
         ($op:ty, $f:expr) => {
-            s.rpc::<$op, _>($f).await.map(|_| ()).map_err(|e| e.to_string())
+            s.rpc::<$op, _>($f)
+                .await
+                .map(|_| ())
+                .map_err(|e| e.to_string())
         };
     }
     macro_rules! load {
         ($src:expr) => {{
             let src = $src;
-            s.rpc::<LoadConfiguration<_>, _>(|b| b.source(src).finish()).await.map(|_| ()).map_err(|e| e.to_string())
+            s.rpc::<LoadConfiguration<_>, _>(|b| b.source(src).finish())
+                .await
+                .map(|_| ())
+                .map_err(|e| e.to_string())
         }};
     }
     match t {
@@ -232,7 +240,11 @@ async fn run_op(s: &mut Session, t: &[&str]) -> Result<(), String> {
         ["commit-configuration", c, at, cf, log, sync] => {
             let c = *c == "1";
             let at = opt(at)?;
-            let cf: Option<u64> = if *cf == "~" { None } else { Some(cf.parse().map_err(|_| "bad confirm")?) };
+            let cf: Option<u64> = if *cf == "~" {
+                None
+            } else {
+                Some(cf.parse().map_err(|_| "bad confirm")?)
+            };
             let log = opt(log)?;
             let sync = match *sync {
                 "~" => None,
@@ -248,9 +260,12 @@ async fn run_op(s: &mut Session, t: &[&str]) -> Result<(), String> {
             let at = match at.as_deref() {
                 None => None,
                 Some("reboot") => Some(At::Reboot),
-                Some(s) if s.len() == 8 => Some(At::Time(chrono::NaiveTime::parse_from_str(s, "%H:%M:%S").map_err(|e| e.to_string())?)),
+                Some(s) if s.len() == 8 => Some(At::Time(
+                    chrono::NaiveTime::parse_from_str(s, "%H:%M:%S").map_err(|e| e.to_string())?,
+                )),
                 Some(s) => Some(At::DateTime(
-                    chrono::NaiveDateTime::parse_from_str(s, "%Y-%m-%d %H:%M:%S").map_err(|e| e.to_string())?,
+                    chrono::NaiveDateTime::parse_from_str(s, "%Y-%m-%d %H:%M:%S")
+                        .map_err(|e| e.to_string())?,
                 )),
             };
             go!(CommitConfiguration, |b| {
@@ -333,7 +348,11 @@ struct Expect {
 }
 
 fn ex(path: &str, value: impl Into<String>, kind: Kind) -> Expect {
-    Expect { path: path.into(), value: value.into(), kind }
+    Expect {
+        path: path.into(),
+        value: value.into(),
+        kind,
+    }
 }
 
 /// which parameter values must be recoverable from the request, and where
@@ -407,7 +426,11 @@ fn expects(t: &[&str]) -> Result<Vec<Expect>, String> {
         }
         ["open-configuration", tgt] => {
             if let Some(("n", h)) = tgt.split_once(':') {
-                v.push(ex("open-configuration/ephemeral-instance", hs(h)?, Kind::Text));
+                v.push(ex(
+                    "open-configuration/ephemeral-instance",
+                    hs(h)?,
+                    Kind::Text,
+                ));
             }
         }
         ["commit-configuration", _, at, cf, log, _] => {
@@ -416,7 +439,11 @@ fn expects(t: &[&str]) -> Result<Vec<Expect>, String> {
             }
             if *cf != "~" && *cf != "600" {
                 let n: u64 = cf.parse().map_err(|_| "bad confirm")?;
-                v.push(ex("commit-configuration/confirm-timeout", n.div_ceil(60).to_string(), Kind::Text));
+                v.push(ex(
+                    "commit-configuration/confirm-timeout",
+                    n.div_ceil(60).to_string(),
+                    Kind::Text,
+                ));
             }
             if let Some(l) = opt(log)? {
                 v.push(ex("commit-configuration/log", l, Kind::Text));
@@ -436,7 +463,11 @@ fn expects(t: &[&str]) -> Result<Vec<Expect>, String> {
                     } else {
                         "configuration-json"
                     };
-                    v.push(ex(&format!("load-configuration/{tag}"), hs(h)?, Kind::Payload));
+                    v.push(ex(
+                        &format!("load-configuration/{tag}"),
+                        hs(h)?,
+                        Kind::Payload,
+                    ));
                 }
                 ["xml", a, h] => {
                     v.push(ex("load-configuration@format", "xml", Kind::Attr));
@@ -452,7 +483,9 @@ fn expects(t: &[&str]) -> Result<Vec<Expect>, String> {
 }
 
 fn count_marker(w: &[u8]) -> Vec<usize> {
-    (0..w.len().saturating_sub(MARKER.len() - 1)).filter(|&i| &w[i..i + MARKER.len()] == MARKER).collect()
+    (0..w.len().saturating_sub(MARKER.len() - 1))
+        .filter(|&i| &w[i..i + MARKER.len()] == MARKER)
+        .collect()
 }
 
 fn norm_attr(v: &str) -> String {
@@ -474,10 +507,18 @@ fn lookup<'a>(root: &'a Elem, path: &str) -> Option<(&'a Elem, Option<&'a xmlstr
 
 /// is the case inside the property's domain, and which class does a delimiter inside the body get?
 fn domain(exps: &[Expect]) -> (bool, &'static str) {
-    let in_domain = exps.iter().all(|e| e.kind != Kind::Fragment || xmlstrict::parse_content(&e.value).is_ok());
-    let cls = if exps.iter().any(|e| e.kind == Kind::Payload && (e.value.contains('<') || e.value.contains('&') || e.value.contains("]]>"))) {
+    let in_domain = exps
+        .iter()
+        .all(|e| e.kind != Kind::Fragment || xmlstrict::parse_content(&e.value).is_ok());
+    let cls = if exps.iter().any(|e| {
+        e.kind == Kind::Payload
+            && (e.value.contains('<') || e.value.contains('&') || e.value.contains("]]>"))
+    }) {
         "text-payload-raw"
-    } else if exps.iter().any(|e| e.kind == Kind::Fragment && e.value.contains("]]>]]>")) {
+    } else if exps
+        .iter()
+        .any(|e| e.kind == Kind::Fragment && e.value.contains("]]>]]>"))
+    {
         "marker-inside-fragment"
     } else {
         "marker-inside"
@@ -496,7 +537,10 @@ fn judge(
 ) -> Option<String> {
     // a value that XML 1.0 cannot represent at all (not even as a character reference) must not be
     // sent: whatever is on the wire is not a well-formed document
-    if exps.iter().any(|e| !e.value.chars().all(xmlstrict::is_char)) {
+    if exps
+        .iter()
+        .any(|e| !e.value.chars().all(xmlstrict::is_char))
+    {
         sink.count("non-xml-char-value.sent");
         return Some("non-xml-char-sent".into());
     }
@@ -514,8 +558,12 @@ fn judge(
         }
     }
     let payload = exps.iter().find(|e| e.kind == Kind::Payload);
-    let payload_meta = payload.map_or(false, |p| p.value.contains('<') || p.value.contains('&') || p.value.contains("]]>"));
-    let frag_marker = exps.iter().any(|e| e.kind == Kind::Fragment && e.value.contains("]]>]]>"));
+    let payload_meta = payload.map_or(false, |p| {
+        p.value.contains('<') || p.value.contains('&') || p.value.contains("]]>")
+    });
+    let frag_marker = exps
+        .iter()
+        .any(|e| e.kind == Kind::Fragment && e.value.contains("]]>]]>"));
     // 1. framing
     let occ = count_marker(wire);
     if occ.last().map(|&i| i + MARKER.len()) != Some(wire.len()) {
@@ -542,7 +590,11 @@ fn judge(
         Ok(r) => r,
         Err(why) => {
             sink.count(&format!("not-well-formed.{why}"));
-            return Some(if payload_meta { "text-payload-raw".into() } else { "not-well-formed".into() });
+            return Some(if payload_meta {
+                "text-payload-raw".into()
+            } else {
+                "not-well-formed".into()
+            });
         }
     };
     if root.name != root_name {
@@ -560,13 +612,21 @@ fn judge(
     };
     for (i, e) in exps.iter().enumerate() {
         let Some((el, at)) = lookup(&root, &e.path) else {
-            set(if e.kind == Kind::Payload && payload_meta { "text-payload-raw" } else { "value-missing" });
+            set(if e.kind == Kind::Payload && payload_meta {
+                "text-payload-raw"
+            } else {
+                "value-missing"
+            });
             continue;
         };
         match e.kind {
             Kind::Attr => {
                 let a = at.expect("attribute expectation without @");
-                sink.corr(case, format!("ser parse attr {}", hexs(&a.raw)), hexs(&a.value));
+                sink.corr(
+                    case,
+                    format!("ser parse attr {}", hexs(&a.raw)),
+                    hexs(&a.value),
+                );
                 if a.value != e.value {
                     if norm_attr(&e.value) == a.value {
                         set("attr-whitespace-normalised");
@@ -615,7 +675,10 @@ async fn exec(pre: usize, toks: &[&str]) -> Result<(Result<Vec<u8>, String>, usi
     }
     let n0 = peer.sent_count();
     if n0 != pre + 1 {
-        return Err(format!("expected {} messages before the case, saw {n0}", pre + 1));
+        return Err(format!(
+            "expected {} messages before the case, saw {n0}",
+            pre + 1
+        ));
     }
     let r = if toks == ["close-session"] {
         s.close().await.map(|_| ()).map_err(|e| e.to_string())
@@ -626,13 +689,21 @@ async fn exec(pre: usize, toks: &[&str]) -> Result<(Result<Vec<u8>, String>, usi
     let out = match (r, sent.len() - n0) {
         (Ok(()), 1) => Ok(sent[n0].to_vec()),
         (Err(e), 0) => Err(e),
-        (r, k) => return Err(format!("rpc returned {r:?} and {k} message(s) were written")),
+        (r, k) => {
+            return Err(format!(
+                "rpc returned {r:?} and {k} message(s) were written"
+            ))
+        }
     };
     Ok((out, pre + 1))
 }
 
 fn block_on<F: std::future::Future>(f: F) -> F::Output {
-    tokio::runtime::Builder::new_current_thread().enable_all().build().unwrap().block_on(f)
+    tokio::runtime::Builder::new_current_thread()
+        .enable_all()
+        .build()
+        .unwrap()
+        .block_on(f)
 }
 
 /// which variant of the code is this? (see `Cfg` in Model/Writers.lean)
@@ -649,11 +720,32 @@ fn probe() -> String {
             Err(e) => panic!("probe failed: {e}"),
         }
     };
-    let has = |r: &Result<Vec<u8>, String>, pat: &[u8]| r.as_ref().map_or(false, |w| w.windows(pat.len()).any(|x| x == pat));
-    let p = bit(&["load-configuration", &format!("text:merge:{}", hexs("<"))], &|r| has(r, b"&lt;"));
-    let w = bit(&["get", &format!("x:{}", hexs("\n"))], &|r| has(r, b"&#10;"));
-    let g = bit(&["edit-config", "candidate", "merge", "stop-on-error", "test-then-set", &format!("c:{}", hexs("<a x=\"]]>]]>\"/>"))], &|r| r.is_err());
-    let x = bit(&["commit-configuration", "0", "~", "~", &hexs("\u{1}"), "~"], &|r| r.is_err());
+    let has = |r: &Result<Vec<u8>, String>, pat: &[u8]| {
+        r.as_ref()
+            .map_or(false, |w| w.windows(pat.len()).any(|x| x == pat))
+    };
+    let p = bit(
+        &["load-configuration", &format!("text:merge:{}", hexs("<"))],
+        &|r| has(r, b"&lt;"),
+    );
+    let w = bit(&["get", &format!("x:{}", hexs("\n"))], &|r| {
+        has(r, b"&#10;")
+    });
+    let g = bit(
+        &[
+            "edit-config",
+            "candidate",
+            "merge",
+            "stop-on-error",
+            "test-then-set",
+            &format!("c:{}", hexs("<a x=\"]]>]]>\"/>")),
+        ],
+        &|r| r.is_err(),
+    );
+    let x = bit(
+        &["commit-configuration", "0", "~", "~", &hexs("\u{1}"), "~"],
+        &|r| r.is_err(),
+    );
     format!("c{p}{w}{g}{x}")
 }
 
@@ -691,8 +783,14 @@ fn text_values(opts: &Opts, rng: &mut Rng) -> Vec<String> {
     .iter()
     .map(|s| s.to_string())
     .collect();
-    v.push(format!("{}<&>\"']]>]]>{}", "ab".repeat(2048), "\u{e9}".repeat(512)));
-    let alphabet: Vec<&str> = vec!["<", ">", "&", "\"", "'", "]", "]]>", ";", "#", "a", "\u{e9}", " ", "\n", "&lt;", "/"];
+    v.push(format!(
+        "{}<&>\"']]>]]>{}",
+        "ab".repeat(2048),
+        "\u{e9}".repeat(512)
+    ));
+    let alphabet: Vec<&str> = vec![
+        "<", ">", "&", "\"", "'", "]", "]]>", ";", "#", "a", "\u{e9}", " ", "\n", "&lt;", "/",
+    ];
     let n = if opts.thorough() { 400 } else { 12 };
     for _ in 0..n {
         let k = 1 + rng.below(10);
@@ -743,10 +841,15 @@ fn fragment_values() -> Vec<String> {
 }
 
 fn url_values() -> Vec<String> {
-    ["file:///var/tmp/a.conf", "http://h.example/a?x=1&y='2'&z=(3)", "ftp://u:p@h.example/%5D%5D%3E%5D%5D%3E", "file:///a;b=c&amp;d"]
-        .iter()
-        .map(|s| s.to_string())
-        .collect()
+    [
+        "file:///var/tmp/a.conf",
+        "http://h.example/a?x=1&y='2'&z=(3)",
+        "ftp://u:p@h.example/%5D%5D%3E%5D%5D%3E",
+        "file:///a;b=c&amp;d",
+    ]
+    .iter()
+    .map(|s| s.to_string())
+    .collect()
 }
 
 fn gen_cases(opts: &Opts, rng: &mut Rng) -> Vec<String> {
@@ -756,7 +859,15 @@ fn gen_cases(opts: &Opts, rng: &mut Rng) -> Vec<String> {
     let uv = url_values();
     let h = |s: &str| hexs(s);
     // operations without free-text parameters: every enumeration value
-    for op in ["discard-changes", "close-session", "close-configuration", "lock-configuration", "unlock-configuration", "get ~", "cancel-commit ~"] {
+    for op in [
+        "discard-changes",
+        "close-session",
+        "close-configuration",
+        "lock-configuration",
+        "unlock-configuration",
+        "get ~",
+        "cancel-commit ~",
+    ] {
         ops.push(op.into());
     }
     for d in ["running", "candidate", "startup"] {
@@ -790,10 +901,19 @@ fn gen_cases(opts: &Opts, rng: &mut Rng) -> Vec<String> {
     }
     ops.push("load-configuration rescue".into());
     for c in ["0", "1"] {
-        for at in ["~".to_string(), h("reboot"), h("23:59:07"), h("2031-12-31 00:00:00")] {
+        for at in [
+            "~".to_string(),
+            h("reboot"),
+            h("23:59:07"),
+            h("2031-12-31 00:00:00"),
+        ] {
             for cf in ["~", "600", "0", "1", "60", "61", "7200"] {
                 for sync in ["~", "0", "1"] {
-                    if rng.chance(1, 4) || opts.thorough() || (c == "0" && at == "~") || (cf == "~" && sync == "~") {
+                    if rng.chance(1, 4)
+                        || opts.thorough()
+                        || (c == "0" && at == "~")
+                        || (cf == "~" && sync == "~")
+                    {
                         ops.push(format!("commit-configuration {c} {at} {cf} ~ {sync}"));
                     }
                 }
@@ -831,7 +951,9 @@ fn gen_cases(opts: &Opts, rng: &mut Rng) -> Vec<String> {
     }
     for u in &uv {
         let x = h(u);
-        ops.push(format!("edit-config candidate merge stop-on-error test-then-set u:{x}"));
+        ops.push(format!(
+            "edit-config candidate merge stop-on-error test-then-set u:{x}"
+        ));
         ops.push(format!("delete-config u:{x}"));
     }
     // every raw-fragment slot x every fragment
@@ -839,14 +961,20 @@ fn gen_cases(opts: &Opts, rng: &mut Rng) -> Vec<String> {
         let x = h(f);
         ops.push(format!("get s:{x}"));
         ops.push(format!("get-config candidate s:{x}"));
-        ops.push(format!("edit-config candidate merge stop-on-error test-then-set c:{x}"));
+        ops.push(format!(
+            "edit-config candidate merge stop-on-error test-then-set c:{x}"
+        ));
         ops.push(format!("copy-config candidate c:{x}"));
         ops.push(format!("validate c:{x}"));
         for a in ["merge", "override", "update", "replace"] {
             ops.push(format!("load-configuration xml:{a}:{x}"));
         }
     }
-    let mut cases: Vec<String> = ops.iter().enumerate().map(|(i, op)| format!("{};{op}", if i % 7 == 3 { 9 + i % 3 } else { i % 3 })).collect();
+    let mut cases: Vec<String> = ops
+        .iter()
+        .enumerate()
+        .map(|(i, op)| format!("{};{op}", if i % 7 == 3 { 9 + i % 3 } else { i % 3 }))
+        .collect();
     cases.push("hello".into());
     // agent payloads
     let names: Vec<String> = vec![
@@ -867,10 +995,23 @@ fn gen_cases(opts: &Opts, rng: &mut Rng) -> Vec<String> {
         "AS65000 OR (RS-BAR AND <AS1 AS2+>)",
         "ANY",
     ];
-    let r4 = ["192.0.2.0/24,24,32", "198.51.100.0/24,25,25", "10.0.0.0/8,8,8"];
+    let r4 = [
+        "192.0.2.0/24,24,32",
+        "198.51.100.0/24,25,25",
+        "10.0.0.0/8,8,8",
+    ];
     let r6 = ["2001:db8::/32,48,64", "2001:db8:1::/48,48,48"];
-    let sets4 = [".".to_string(), r4[0].to_string(), format!("{}+{}", r4[0], r4[1]), format!("{}+{}+{}", r4[0], r4[1], r4[2])];
-    let sets6 = [".".to_string(), r6[0].to_string(), format!("{}+{}", r6[0], r6[1])];
+    let sets4 = [
+        ".".to_string(),
+        r4[0].to_string(),
+        format!("{}+{}", r4[0], r4[1]),
+        format!("{}+{}+{}", r4[0], r4[1], r4[2]),
+    ];
+    let sets6 = [
+        ".".to_string(),
+        r6[0].to_string(),
+        format!("{}+{}", r6[0], r6[1]),
+    ];
     for (i, n) in names.iter().enumerate() {
         for (j, e) in exprs.iter().enumerate() {
             if !(i < 2 || j == (i % exprs.len()) || opts.thorough()) {
@@ -885,7 +1026,13 @@ fn gen_cases(opts: &Opts, rng: &mut Rng) -> Vec<String> {
     }
     for s4 in &sets4 {
         for t4 in &sets4 {
-            cases.push(format!("agent;{};{};{s4}|{};{t4}|{}", h("p"), h(exprs[0]), sets6[1], sets6[2]));
+            cases.push(format!(
+                "agent;{};{};{s4}|{};{t4}|{}",
+                h("p"),
+                h(exprs[0]),
+                sets6[1],
+                sets6[2]
+            ));
         }
     }
     cases
@@ -932,7 +1079,9 @@ fn installed_reply(name_raw: &str, sets: &Option<(Vec<RangeT>, Vec<RangeT>)>) ->
             if rs.is_empty() {
                 continue;
             }
-            s.push_str(&format!("<term><name>{fam}</name><from><family>{fam}</family>"));
+            s.push_str(&format!(
+                "<term><name>{fam}</name><from><family>{fam}</family>"
+            ));
             for r in rs {
                 s.push_str(&format!(
                     "<route-filter><address>{}</address><choice-ident>prefix-length-range</choice-ident>\
@@ -950,7 +1099,11 @@ fn installed_reply(name_raw: &str, sets: &Option<(Vec<RangeT>, Vec<RangeT>)>) ->
 
 /// order `set` as the payload lists it: members seen in `observed` first (in that order)
 fn ordered(set: &[RangeT], observed: &[RangeT], rest_first: &[RangeT]) -> Vec<RangeT> {
-    let mut out: Vec<RangeT> = observed.iter().filter(|r| set.contains(r)).cloned().collect();
+    let mut out: Vec<RangeT> = observed
+        .iter()
+        .filter(|r| set.contains(r))
+        .cloned()
+        .collect();
     for r in rest_first.iter().chain(set.iter()) {
         if set.contains(r) && !out.contains(r) {
             out.push(r.clone());
@@ -964,7 +1117,10 @@ fn observed_filters(term: Option<&Elem>) -> (Vec<RangeT>, Vec<RangeT>) {
     if let Some(from) = term.and_then(|t| t.child("from")) {
         for rf in from.children("route-filter") {
             let addr = rf.child("address").map(|e| e.text()).unwrap_or_default();
-            let plr = rf.child("prefix-length-range").map(|e| e.text()).unwrap_or_default();
+            let plr = rf
+                .child("prefix-length-range")
+                .map(|e| e.text())
+                .unwrap_or_default();
             let (lo, hi) = plr.split_once('-').unwrap_or(("", ""));
             let r = (
                 addr,
@@ -990,7 +1146,9 @@ fn run_agent(case: &str, cfg: &str, sink: &mut Sink) {
     if p.len() != 5 {
         return bad(sink, "bad descriptor".into());
     }
-    let (Ok(name), Ok(expr), Some(inst), Some(ev)) = (hs(p[1]), hs(p[2]), parse_sets(p[3]), parse_sets(p[4])) else {
+    let (Ok(name), Ok(expr), Some(inst), Some(ev)) =
+        (hs(p[1]), hs(p[2]), parse_sets(p[3]), parse_sets(p[4]))
+    else {
         return bad(sink, "bad descriptor".into());
     };
     let display = match expr.parse::<rpsl::expr::MpFilterExpr>() {
@@ -1013,7 +1171,10 @@ fn run_agent(case: &str, cfg: &str, sink: &mut Sink) {
         Some((v4, v6)) => vec![(
             name_used.clone(),
             expr.clone(),
-            Some((v4.iter().map(range_fromstr).collect(), v6.iter().map(range_fromstr).collect())),
+            Some((
+                v4.iter().map(range_fromstr).collect(),
+                v6.iter().map(range_fromstr).collect(),
+            )),
         )],
     };
     let reply = installed_reply(&name_raw, &inst);
@@ -1024,7 +1185,10 @@ fn run_agent(case: &str, cfg: &str, sink: &mut Sink) {
     };
     let want_n = usize::from(inst.is_some() || ev.is_some());
     if payloads.len() != want_n {
-        return bad(sink, format!("{} payloads, expected {want_n}", payloads.len()));
+        return bad(
+            sink,
+            format!("{} payloads, expected {want_n}", payloads.len()),
+        );
     }
     let Some(payload) = payloads.first() else {
         sink.count("agent.no-update");
@@ -1040,10 +1204,18 @@ fn run_agent(case: &str, cfg: &str, sink: &mut Sink) {
         None => payload.clone(),
     };
     let tree = xmlstrict::parse_document(&payload);
-    let mut exps = vec![ex("policy-options/policy-statement/name", name_used.clone(), Kind::Text)];
+    let mut exps = vec![ex(
+        "policy-options/policy-statement/name",
+        name_used.clone(),
+        Kind::Text,
+    )];
     let model_upd = match &ev {
         None => {
-            exps.push(ex("policy-options/policy-statement@delete", "delete", Kind::Attr));
+            exps.push(ex(
+                "policy-options/policy-statement@delete",
+                "delete",
+                Kind::Attr,
+            ));
             sink.count("agent.delete");
             format!("del {}", hexs(&name_used))
         }
@@ -1053,46 +1225,101 @@ fn run_agent(case: &str, cfg: &str, sink: &mut Sink) {
                 format!("Last updated at NOW from mp-filter expression {display}"),
                 Kind::Attr,
             ));
-            sink.count(if inst.is_some() { "agent.update" } else { "agent.create" });
-            let stmt = tree.as_ref().ok().and_then(|t| t.path("policy-options/policy-statement"));
-            let terms: Vec<&Elem> = stmt.map(|s| s.children("term").collect()).unwrap_or_default();
+            sink.count(if inst.is_some() {
+                "agent.update"
+            } else {
+                "agent.create"
+            });
+            let stmt = tree
+                .as_ref()
+                .ok()
+                .and_then(|t| t.path("policy-options/policy-statement"));
+            let terms: Vec<&Elem> = stmt
+                .map(|s| s.children("term").collect())
+                .unwrap_or_default();
             let mut toks = vec![];
             for (k, new) in [n4, n6].into_iter().enumerate() {
                 // a family with nothing installed and nothing to install has no term at all: find the
                 // term by its <name>, not by position
                 let fam = if k == 0 { "inet" } else { "inet6" };
-                let term = terms.iter().copied().find(|t| t.child("name").map(|e| e.text()).as_deref() == Some(fam));
+                let term = terms
+                    .iter()
+                    .copied()
+                    .find(|t| t.child("name").map(|e| e.text()).as_deref() == Some(fam));
                 let (dels, adds) = observed_filters(term);
                 let old = inst.as_ref().map(|(o4, o6)| if k == 0 { o4 } else { o6 });
                 match old {
                     None => {
                         toks.push("~".to_string());
-                        toks.push(list(&ordered(new, &adds, &[]).iter().map(range_tok).collect::<Vec<_>>()));
+                        toks.push(list(
+                            &ordered(new, &adds, &[])
+                                .iter()
+                                .map(range_tok)
+                                .collect::<Vec<_>>(),
+                        ));
                     }
                     Some(old) => {
-                        let common: Vec<RangeT> = old.iter().filter(|r| new.contains(r)).cloned().collect();
-                        toks.push(list(&ordered(old, &dels, &common).iter().map(range_tok).collect::<Vec<_>>()));
-                        toks.push(list(&ordered(new, &adds, &common).iter().map(range_tok).collect::<Vec<_>>()));
+                        let common: Vec<RangeT> =
+                            old.iter().filter(|r| new.contains(r)).cloned().collect();
+                        toks.push(list(
+                            &ordered(old, &dels, &common)
+                                .iter()
+                                .map(range_tok)
+                                .collect::<Vec<_>>(),
+                        ));
+                        toks.push(list(
+                            &ordered(new, &adds, &common)
+                                .iter()
+                                .map(range_tok)
+                                .collect::<Vec<_>>(),
+                        ));
                     }
                 }
             }
-            format!("upd {} {} {} {}", hexs(&name_used), hexs("NOW"), hexs(&display), toks.join(" "))
+            format!(
+                "upd {} {} {} {}",
+                hexs(&name_used),
+                hexs("NOW"),
+                hexs(&display),
+                toks.join(" ")
+            )
         }
     };
-    sink.corr(case, format!("ser payload {cfg} {model_upd}"), hexs(&payload));
+    sink.corr(
+        case,
+        format!("ser payload {cfg} {model_upd}"),
+        hexs(&payload),
+    );
     // the payload inside a real <load-configuration> request (the agent uses Xml + Merge)
-    let toks_owned = ["load-configuration".to_string(), format!("xml:merge:{}", hexs(&payload))];
+    let toks_owned = [
+        "load-configuration".to_string(),
+        format!("xml:merge:{}", hexs(&payload)),
+    ];
     let toks: Vec<&str> = toks_owned.iter().map(|s| s.as_str()).collect();
     match block_on(exec(0, &toks)) {
         Ok((Ok(w), id)) => {
-            sink.corr(case, format!("ser loadupd {cfg} {id} merge {model_upd}"), hex(&w));
+            sink.corr(
+                case,
+                format!("ser loadupd {cfg} {id} merge {model_upd}"),
+                hex(&w),
+            );
             sink.spec(case, format!("ser specframe {} marker-inside", hex(&w)));
-            let exps2: Vec<Expect> = exps.iter().map(|e| Expect { path: format!("load-configuration/configuration/{}", e.path), ..e.clone() }).collect();
+            let exps2: Vec<Expect> = exps
+                .iter()
+                .map(|e| Expect {
+                    path: format!("load-configuration/configuration/{}", e.path),
+                    ..e.clone()
+                })
+                .collect();
             let v = judge(&w, "rpc", &exps2, sink, case);
             sink.direct(case, v.map_or("ok".into(), |c| format!("violation {c}")));
         }
         Ok((Err(e), id)) => {
-            sink.corr(case, format!("ser loadupd {cfg} {id} merge {model_upd}"), "refused".into());
+            sink.corr(
+                case,
+                format!("ser loadupd {cfg} {id} merge {model_upd}"),
+                "refused".into(),
+            );
             sink.count("refused");
             sink.notes.push(format!("{case}: refused: {e}"));
         }
@@ -1125,7 +1352,9 @@ fn run_hello(case: &str, cfg: &str, sink: &mut Sink) {
             // the advertised set is C01's business; here: base:1.0 is there and every entry reads back as a base URI
             if root.name != "hello"
                 || !caps.iter().any(|c| c == "urn:ietf:params:netconf:base:1.0")
-                || !caps.iter().all(|c| c.starts_with("urn:ietf:params:netconf:base:1."))
+                || !caps
+                    .iter()
+                    .all(|c| c.starts_with("urn:ietf:params:netconf:base:1."))
             {
                 Some("value-not-recovered".into())
             } else if count_marker(&w) != vec![w.len() - MARKER.len()] {
@@ -1135,8 +1364,18 @@ fn run_hello(case: &str, cfg: &str, sink: &mut Sink) {
             }
         }
     };
-    sink.corr(case, format!("ser hello {cfg} {}", list(&caps.iter().map(|c| hexs(c)).collect::<Vec<_>>())), hex(&w));
-    sink.direct(case, verdict.map_or("ok".into(), |c| format!("violation {c}")));
+    sink.corr(
+        case,
+        format!(
+            "ser hello {cfg} {}",
+            list(&caps.iter().map(|c| hexs(c)).collect::<Vec<_>>())
+        ),
+        hex(&w),
+    );
+    sink.direct(
+        case,
+        verdict.map_or("ok".into(), |c| format!("violation {c}")),
+    );
     sink.count("op.hello");
 }
 
@@ -1159,7 +1398,8 @@ fn run_request(case: &str, cfg: &str, sink: &mut Sink) {
     match block_on(exec(pre, &toks)) {
         Err(e) => {
             sink.direct(case, "violation harness-error".into());
-            sink.notes.push(format!("{}: {e}", &case[..case.len().min(120)]));
+            sink.notes
+                .push(format!("{}: {e}", &case[..case.len().min(120)]));
         }
         Ok((Err(e), id)) => {
             sink.corr(case, format!("ser wire {cfg} {id} {op}"), "refused".into());
@@ -1202,8 +1442,16 @@ pub fn main(opts: &Opts) {
     // the model variant is fixed by the registration (`cfg=c1011` = the code as it is in /repo now);
     // a probe result that differs is reported as a correspondence break, it does not re-target the model
     let probed = probe();
-    let cfg = opts.extra.iter().find_map(|e| e.strip_prefix("cfg=").map(|s| s.to_string())).unwrap_or_else(|| probed.clone());
-    sink.corr("variant-probe", format!("ser variant {cfg}"), probed.clone());
+    let cfg = opts
+        .extra
+        .iter()
+        .find_map(|e| e.strip_prefix("cfg=").map(|s| s.to_string()))
+        .unwrap_or_else(|| probed.clone());
+    sink.corr(
+        "variant-probe",
+        format!("ser variant {cfg}"),
+        probed.clone(),
+    );
     sink.notes.push(format!(
         "implementation variant probed as {cfg} (c<text/JSON payload escaped><TAB/LF/CR written as references><marker guard in to_xml><XML Char guard in to_xml>); \
          c0000 = Cfg.pinned, c1111 = Cfg.fixed"
@@ -1219,6 +1467,7 @@ pub fn main(opts: &Opts) {
         cases = gen_cases(opts, &mut rng);
     }
     for c in &cases {
+        progress(c);
         if c == "hello" {
             run_hello(c, &cfg, &mut sink);
         } else if c.starts_with("agent;") {
@@ -1227,6 +1476,7 @@ pub fn main(opts: &Opts) {
             run_request(c, &cfg, &mut sink);
         }
     }
+    progress_idle();
     sink.add("cases", cases.len() as u64);
     sink.add("wall_ms", t0.elapsed().as_millis() as u64);
     sink.notes.push(
